@@ -776,8 +776,9 @@ func (c *CharSet) addCategory(categoryName string, negate, caseInsensitive bool)
 
 	}
 
-	if caseInsensitive && (categoryName == "Ll" || categoryName == "Lu" || categoryName == "Lt") {
-		// when RegexOptions.IgnoreCase is specified then {Ll} {Lu} and {Lt} cases should all match:
+	if t := unicodeCategories[categoryName]; caseInsensitive && (t == unicode.Ll || t == unicode.Lu || t == unicode.Lt) {
+		// when RegexOptions.IgnoreCase is specified then {Ll} {Lu} and {Lt} cases (under any of
+		// their names, e.g. Lowercase_Letter) should all match:
 		// the cased letters as ONE category, so that the negated form \P{Lu} is "not a cased
 		// letter" (three negated categories would be a union, i.e. every rune)
 		c.addCategories(Category{Cat: "LC", Negate: negate})
